@@ -277,6 +277,9 @@ func HandleSetFileInfo(cc *hotline.ClientConn, t *hotline.Transaction) (res []ho
 			if !cc.Authorize(hotline.AccessSetFileComment) {
 				return cc.NewErrReply(t, "You are not allowed to set comments for files.")
 			}
+		default:
+			// Neither a folder nor a regular file (e.g. a device or named pipe): no privilege covers it.
+			return cc.NewErrReply(t, "Cannot set comment for "+string(fileName)+" because it is not a file or folder.")
 		}
 
 		if err := hlFile.Ffo.FlatFileInformationFork.SetComment(t.GetField(hotline.FieldFileComment).Data); err != nil {
@@ -370,6 +373,9 @@ func HandleDeleteFile(cc *hotline.ClientConn, t *hotline.Transaction) (res []hot
 		if !cc.Authorize(hotline.AccessDeleteFile) {
 			return cc.NewErrReply(t, "You are not allowed to delete files.")
 		}
+	default:
+		// Neither a folder nor a regular file (e.g. a device or named pipe): no privilege covers it.
+		return cc.NewErrReply(t, "Cannot delete "+string(fileName)+" because it is not a file or folder.")
 	}
 
 	if err := hlFile.Delete(); err != nil {
@@ -414,6 +420,9 @@ func HandleMoveFile(cc *hotline.ClientConn, t *hotline.Transaction) (res []hotli
 		if !cc.Authorize(hotline.AccessMoveFile) {
 			return cc.NewErrReply(t, "You are not allowed to move files.")
 		}
+	default:
+		// Neither a folder nor a regular file (e.g. a device or named pipe): no privilege covers it.
+		return cc.NewErrReply(t, "Cannot move "+fileName+" because it is not a file or folder.")
 	}
 	if err := hlFile.Move(fileNewPath); err != nil {
 		return res
